@@ -142,6 +142,7 @@ func checkC15(c *Ctx) {
 	ruleSpecBounds(c)
 	ruleSpanScan(c)
 	ruleWSSpecRecognisers(c)
+	ruleMinLen(c, "C15")
 	c.MinCount("BSET", len(classifierOracles))
 }
 
